@@ -372,7 +372,11 @@ def check(F, rep, tier):
         VF = ("epoch", "major", "minor", "patch", "pre_release", "post", "dev")
         nvf = 0
         for bi, si, st in ai.stmts():
-            if st[0] != "=" or len(st[1]) < 2 or st[1][0] != 1: continue
+            if st[0] != "=" or len(st[1]) < 2: continue
+            if st[1][0] != 1:
+                # a helper spliced in writes through its own copy of `self`: the base local must be (a reborrow of) parameter 1
+                os_ = [o for o in mir.trace_place(ai, [st[1][0]]) if o.kind != "partial"]      # writes to parts of *self are not definitions of the pointer
+                if not os_ or not all(o.kind == "param" and o.data == 1 and not o.fields() for o in os_): continue
             fl = [e[2] for e in st[1][1:] if not isinstance(e, str) and e[0] == "f"]
             if not fl or fl[-1] not in VF or st[2][0] != "use": continue
             nvf += 1
